@@ -583,7 +583,7 @@ func (s *scope) createInstance(descriptor *Descriptor) (any, error) {
 	}
 
 	instance := results[0].Interface()
-	if instance == nil {
+	if instance == nil || isNilResult(results[0]) {
 		return nil, &ValidationError{
 			ServiceType: descriptor.Type,
 			Cause:       fmt.Errorf("constructor returned nil instance"),
@@ -731,11 +731,21 @@ func outputFor(descriptor *Descriptor, info *reflection.ConstructorInfo, results
 
 	default:
 		instance := results[0].Interface()
-		if instance == nil {
+		if instance == nil || isNilResult(results[0]) {
 			return nil, false, fmt.Errorf("constructor returned nil instance")
 		}
 		return instance, true, nil
 	}
+}
+
+// isNilResult reports whether a constructor result is a nil pointer, interface, map,
+// slice, channel or function: a typed nil is not an instance either.
+func isNilResult(result reflect.Value) bool {
+	switch result.Kind() {
+	case reflect.Pointer, reflect.Interface, reflect.Slice, reflect.Map, reflect.Chan, reflect.Func:
+		return result.IsNil()
+	}
+	return false
 }
 
 // FromContext retrieves a Scope from the context.
